@@ -116,10 +116,27 @@ def gen_mod(rng, i, busy):
     return m
 
 
+def to_block(rng, m):
+    """turn a module into one built from a builder block of des/src/net/runtime/blocks.rs"""
+    kind = rng.choice([1, 2, 2, 2, 3, 3, 4, 4, 5])
+    m["trig"] = 4 * kind + rng.choice([0, 0, 0, 1, 2, 3, 3])
+    m["trign"] = rng.choice([1, 1, 2, 3])
+    m["trigd"] = rng.choice(TRIG_D)
+    return m
+
+
 def gen_script(rng):
     n = rng.choice([1, 2, 2, 3, 3, 4, 5])
     busy = rng.choice([0.5, 0.8, 1.0])
     mods = [gen_mod(rng, i, busy) for i in range(n)]
+    if rng.random() < 0.22:                      # the builder-block stream
+        k = rng.randrange(n)
+        for i in range(n):
+            if i == k or rng.random() < 0.3:
+                to_block(rng, mods[i])
+        if all((m["trig"] // 4) % 6 for m in mods):       # somebody has to send
+            mods.append(gen_mod(rng, n, 1.0)); n += 1
+            mods[-1]["nsend"] = max(mods[-1]["nsend"], 2)
     links = []
     pat = rng.choice(["ring", "ring", "chain", "transit", "gatering", "random", "mixed"])
     chp = rng.choice([0.0, 0.5, 1.0, 1.0])
@@ -307,6 +324,20 @@ def mechanisms(script, out):
         ms.add("restarted")
     if 3 in kinds:
         ms.add("task_finished")
+    if 6 in kinds:
+        ms.add("builder_block_task_failed")
+    kinds_of = [(m["trig"] // 4) % 6 for m in d["mods"]]
+    if any(kinds_of):
+        ms.add("builder_block_module")
+    if stop >= 2:
+        for i, k in enumerate(kinds_of):
+            if k in (1, 2, 3):
+                starts = sum(1 for e in r["log"] if e[1] == i and e[2] == 1)
+                ends = sum(1 for e in r["log"] if e[1] == i and e[2] in (3, 6))
+                if starts > ends and not (5 in kinds and starts == ends):
+                    ms.add("builder_block_task_pending_at_end")
+                    if k in (2, 3):
+                        ms.add("failable_block_task_pending_at_end")
     if r["created"][2] > sum(1 for e in r["log"] if e[2] == 3) and stop >= 2:
         ms.add("tasks_pending_at_drop")
         fin = {}
@@ -338,6 +369,7 @@ def pretty(script):
     for i, m in enumerate(d["mods"]):
         s += "m%d(parent=%s pe=%d send=%d self=%s tasks=%s trig=%s gates=%d%s) " % (
             i, "m%d" % (m["parent"] - 1) if m["parent"] and m["parent"] - 1 < i else "-", m["npe"], m["nsend"], m["selfd"], m["tasks"],
+            ["", "AsyncFn::new ", "AsyncFn::failable ", "AsyncFn::io ", "ModuleFn::failable ", "HandlerFn::failable "][(m["trig"] // 4) % 6] +
             ["-", "shutdown@%d" % m["trign"], "restart@%d+%dns" % (m["trign"], m["trigd"]), "panic@%d" % m["trign"]][m["trig"] % 4],
             m["ngates"], " endsend" if m["endsend"] else "")
     s += "links=" + ",".join("m%d.g%d-%sm%d.g%d" % (l[0], l[1], "ch-" if l[4] else "", l[2], l[3]) for l in d["links"])
